@@ -209,6 +209,17 @@ def run_case(ctx, desc):
     if desc["bias"]:
         bb = torch.randn(D.bias.shape, generator=tg, dtype=torch.float64).to(tdt)
         D.bias, U.bias = bb.clone(), bb.clone()
+    Z = None
+    if desc["mode"] == "zero":
+        # the third member: built with a supported maximum delay of 0.0 (documented: registers a delay parameter, uses no
+        # delays) - indistinguishable from the connection without delays in its output AND in the views exposed for learning
+        try:
+            Z = _build({**desc, "K": 0, "substep": False}, True)
+        except Exception as e:  # noqa: BLE001
+            return ctx.violation(ctx.exc_signature(e, f"construct_zero_maximum_delay.{conn}.{syn}"), f"{type(e).__name__}: {str(e)[:140]}", desc)
+        Z.weight = W.clone()
+        if desc["bias"]:
+            Z.bias = bb.clone()
     Wn = _np(D.weight)   # lateral: already masked by the setter
     bn = _np(D.bias) if desc["bias"] else None
     lat_mask = (1 - np.eye(3)) if conn == "lateral" else None
@@ -245,6 +256,8 @@ def run_case(ctx, desc):
             if ev == "clear":
                 D.clear()
                 U.clear()
+                if Z is not None:
+                    Z.clear()
                 t0 = t + 1
                 ctx.case(f"{tag}/clear", nontrivial=False)
                 ctx.count("clears")
@@ -293,6 +306,17 @@ def run_case(ctx, desc):
             if not torch.equal(U.syncurrent, U.synapse.current) or not torch.equal(U.synspike, U.synapse.spike):
                 return ctx.violation(f"{conn}.{syn}.undelayed_views_ne_present", "syncurrent / synspike of an undelayed connection differ "
                                      "from the synapse's present current / spikes", rdesc)
+            if Z is not None:
+                outZ = Z(*args)
+                ctx.count("steps_of_connections_built_with_zero_maximum_delay")
+                if tuple(outZ.shape) != tuple(outU.shape) or not np.allclose(_np(outZ), _np(outU), rtol=rtol, atol=atol):
+                    return ctx.violation(f"{conn}.{syn}.zero_maximum_delay_ne_undelayed.output", "a connection built with delay=0.0 differs from the undelayed one", rdesc)
+                for vn in ("syncurrent", "synspike"):
+                    vz, vu = getattr(Z, vn), getattr(U, vn)
+                    if tuple(vz.shape) != tuple(vu.shape) or not torch.equal(vz, vu):
+                        return ctx.violation(f"{conn}.{syn}.zero_maximum_delay_ne_undelayed.{vn}",
+                                             f"{vn} of a connection built with delay=0.0 has shape {tuple(vz.shape)}, the undelayed one {tuple(vu.shape)}"
+                                             + ("" if tuple(vz.shape) != tuple(vu.shape) else " (values differ)"), rdesc)
             if desc["mode"] == "zero":
                 ctx.count("zero_delay_steps")
                 if not np.allclose(_np(outD), _np(outU), rtol=rtol, atol=atol):
